@@ -60,36 +60,34 @@ Theorem C16_frame_uniform_imul : forall self v s b sh k l,
   snapshot (fst (ut_imul self v s)) l = snapshot s l.
 Proof. exact ut_imul_snapshot. Qed.
 
-(* FULL STATEMENT (failure atomicity of the in-place operators):
-     forall sign self v s e l, wf s -> l < next s -> snd (ut_iop sign self v s) = Exn e ->
-       snapshot (fst (ut_iop sign self v s)) l = snapshot s l          (and the same for ut_imul).
-   PROVED PART: a failing += / -= / *= either has written nothing at all (self included) - this is
-   the case for every failure caused by the operand: non-uniform increments, a step that would
-   leave a non-positive interval, a non-positive factor, a mismatched shape, a fractional dtype:
-   everything raised up to and including the in-place ufunc - or the exception came out of
-   _follow_shift / the attribute part of __imul__, which run after the samples were written.
-   MISSING: that this second case cannot occur; it needs a typing invariant on the attribute slots
-   (0-d time objects) and the value argument interval + step > 0 => no division by zero, and is
-   only checked observationally (K and the oracle: every failing call of every history leaves the
-   byte snapshot of its target unchanged; the two inputs on which it did occur before 9a1272e are
-   in the corpus). *)
-Theorem C16_uniform_iadd_isub_failure_partial : forall sign self v s e,
+(* ---- FAILURE ATOMICITY of += -= *= : a call that raises - non-uniform increments, a step that
+        would leave a non-positive interval, a non-positive factor, a mismatched shape, a fractional
+        dtype, or anything else - has written NOTHING, self included.  Guards, stated explicitly:
+        the axis is well-typed (`typed_axis`: its t0 / interval / duration slots hold one-valued time
+        objects separate from the axis and from its sample buffer) and, for += / -=, an operand
+        that is a time object is not the axis itself and does not live in the axis' sample buffer
+        (`u += u` is outside the guard).  The proof shows that once the samples have been written,
+        _follow_shift / the attribute part of __imul__ cannot raise: the slots are readable and
+        interval + step > 0 (checked before anything is written) excludes the division by zero. *)
+Theorem C16_uniform_iadd_isub_failure_atomic : forall sign self v s e b l,
+  wf s -> typed_axis s self b ->
+  (forall x, v = PRef x -> x <> self /\ forall bl sh k, mem s x = Some (CArr bl sh k) -> bl <> b) ->
+  l < next s -> snd (ut_iop sign self v s) = Exn e ->
+  snapshot (fst (ut_iop sign self v s)) l = snapshot s l.
+Proof. exact ut_iop_failure_atomic_snapshot. Qed.
+Print Assumptions C16_uniform_iadd_isub_failure_atomic.
+Theorem C16_uniform_imul_failure_atomic : forall self v s e b l,
+  wf s -> typed_axis s self b -> l < next s -> snd (ut_imul self v s) = Exn e ->
+  snapshot (fst (ut_imul self v s)) l = snapshot s l.
+Proof. exact ut_imul_failure_atomic_snapshot. Qed.
+(* without any guard: a failing += / -= either wrote nothing or failed inside _follow_shift *)
+Theorem C16_uniform_iadd_isub_failure_cases : forall sign self v s e,
   snd (ut_iop sign self v s) = Exn e ->
   ext [] s (fst (ut_iop sign self v s)) \/
   exists s1 w s2, ut_convert_check self sign v s = (s1, Ok w) /\
                   iop_inplace (fun a b => a + sign * b)%Z self w s1 = (s2, Ok tt) /\
                   snd (follow_shift self w sign s2) = Exn e.
 Proof. exact ut_iop_failure_cases. Qed.
-Theorem C16_uniform_imul_failure_partial : forall self v s e,
-  snd (ut_imul self v s) = Exn e ->
-  ext [] s (fst (ut_imul self v s)) \/
-  exists k s2, v = PInt k /\ snd (rebind_scaled self k s2) = Exn e.
-Proof. exact ut_imul_failure_cases. Qed.
-Theorem C16_uniform_operand_failure_atomic : forall sign f self v s e,
-  snd ((w <- ut_convert_check self sign v ;; iop_inplace f self w) s) = Exn e ->
-  ext [] s (fst ((w <- ut_convert_check self sign v ;; iop_inplace f self w) s)).
-Proof. exact ut_iop_operand_failure_atomic. Qed.
-Print Assumptions C16_uniform_iadd_isub_failure_partial.
 
 (* ---- COPY_DISJOINT: a copy of a time axis / a series consists of fresh locations only (so it
         shares no mutable state with anything that existed), making it changes nothing, and ANY
@@ -182,6 +180,10 @@ Example C16_ex_uniform_operand :
   wf ex_ut2 /\ mem ex_ut2 7 = Some (CArr 6 [3] (KUniform 1000000000 1 3 5)) /\ 7 < next ex_ut2 /\
   9 < next ex_ut2 /\ ~ In 7 (footprint ex_ut2 9) /\ ~ In 6 (footprint ex_ut2 9).
 Proof. exact ex_ut2_operand_separate. Qed.
+(* the example axis is well-typed and the operand array (object 9) is separate from it *)
+Example C16_ex_uniform_typed : typed_axis ex_ut2 7 6 /\
+  (forall x, PRef 9 = PRef x -> x <> 7 /\ forall bl sh k, mem ex_ut2 x = Some (CArr bl sh k) -> bl <> 6).
+Proof. exact ex_ut2_typed. Qed.
 (* `u += [-1,-2,-3] ms` (the step cancels the 1 ms interval) and `u *= 0` are refused with u intact,
    `u -= [-1,-2,-3] ms` is applied and leaves the operand intact *)
 Example C16_ex_uniform_rejections :
